@@ -1393,9 +1393,13 @@ class Process(StateMachine, persistence.Savable, metaclass=ProcessStateMachineMe
                 self.transition_to(next_state)
 
             # A pause or kill requested while the above was under way (typically by a listener that was notified
-            # of the new state) is carried out right away: this is the step boundary it has been waiting for.
-            action = self._interrupt_action
-            if action is not None and not action.done() and not self.has_terminated():
+            # of the new state) is carried out right away: this is the step boundary it has been waiting for. The
+            # same holds for a request made while that action is carried out (e.g. a kill from a listener that is
+            # told the process paused), hence the loop.
+            while not self.has_terminated():
+                action = self._interrupt_action
+                if action is None or action.done():
+                    break
                 action.run(None)
 
         finally:
